@@ -138,6 +138,23 @@ pub fn run(cfg: &Config) -> i32 {
         let a = vec!["careful".to_string(), cfg.prop.clone(), cfg.tier.clone(), c.to_string()];
         match run_child(&a, false, Some(600)) {
             Ok(cr) if cr.code == Some(0) => continue,
+            Ok(cr) if cr.code == Some(4) => {
+                println!("chunk {c} holds a run that violates the property without dying alone: re-running that chunk by itself");
+                std::env::set_var("SIM_ONLY_CHUNK", c.to_string());
+                std::env::set_var("VERIF_JOBS", "1");
+                let args = vec!["run-child".to_string(), cfg.prop.clone(), cfg.tier.clone()];
+                return match run_child(&args, true, None) {
+                    Ok(r) if r.code == Some(1) => 1,
+                    Ok(r) => {
+                        eprintln!("harness error: chunk {c} alone ended with {:?} / signal {:?}", r.code, r.signal);
+                        2
+                    }
+                    Err(e) => {
+                        eprintln!("harness error: {e}");
+                        2
+                    }
+                };
+            }
             Ok(cr) => {
                 if let Some(i) = cr.last_run {
                     let sig = cr.signal.map_or_else(|| format!("exit {:?}", cr.code), |s| format!("signal {s}"));
@@ -336,11 +353,15 @@ pub fn careful(cfg: &Config, chunk: u64) -> i32 {
             let sw = batch::swarm_for(&ctx, i);
             let case = batch::generate(&ctx, i, &sw, ex);
             let seed = crate::rng::mix(ctx.cfg.seed, batch::prop_num(&ctx.cfg.prop) ^ 0x7A9E, i);
-            let _ = batch::execute(&case, Some(seed));
+            if batch::execute(&case, Some(seed)).violation.is_some() {
+                // alive, but violating: the batch died of several such runs together
+                return 4;
+            }
         }
+        0
     });
     match h.map(std::thread::JoinHandle::join) {
-        Ok(Ok(())) => 0,
+        Ok(Ok(c)) => c,
         _ => 2,
     }
 }
